@@ -18,12 +18,14 @@ theorem verdict_implies_marker (raw sig : Bytes) (mso : Bool) (h : zipContains r
 
 /-- **C19 (forward, first entry)** -/
 theorem first_entry_marker (raw sig : Bytes) (mso : Bool) (hl : 30 ≤ raw.length)
+    (hpk : hasPrefix raw pk34 = true)
     (h : hasPrefix (raw.drop 30) sig = true) : zipContains raw sig mso = some true :=
-  C19Base.first_entry_marker raw sig mso hl h
+  C19Base.first_entry_marker raw sig mso hl hpk h
 
 /-- JAR: first entry `META-INF/MANIFEST.MF` ⇒ the regenerated `Jar` check accepts -/
-theorem jar_forward (raw : Bytes) (hl : 30 ≤ raw.length) (h : hasPrefix (raw.drop 30) C19Base.kManifest = true) :
-    Cust.evalExpr Gen.d_Jar raw = some true := C19Base.jar_forward raw hl h
+theorem jar_forward (raw : Bytes) (hl : 30 ≤ raw.length) (hpk : hasPrefix raw pk34 = true)
+    (h : hasPrefix (raw.drop 30) C19Base.kManifest = true) :
+    Cust.evalExpr Gen.d_Jar raw = some true := C19Base.jar_forward raw hl hpk h
 
 /-- regenerated facts about tree.go: the zip children in priority order (apk before jar), the
     parent's type, and no node outside the zip subtree uses the zip walk -/
@@ -43,14 +45,14 @@ theorem zip_child_parent (acc : Info → Bool) (a : Info) (cs : List (Tree Info)
 
 /-- **C19 (forward, entries 2..6, offsets as hypotheses)** -/
 theorem zipContains_forward (raw sig : Bytes) (mso : Bool) (nh : Nat)
-    (hlen : 0x1E ≤ raw.length)
+    (hlen : 0x1E ≤ raw.length) (hpk : hasPrefix raw pk34 = true)
     (hmso : mso = true → msoSkipFiles.any (fun sf => hasPrefix (raw.drop 0x1E) sf) = true)
     (hso : 0x1E + (u32le raw 18 + 49) % 4294967296 + nh ≤ raw.length)
     (hidx : indexOf pk34 (raw.drop ((u32le raw 18 + 49) % 4294967296)) = some nh)
     (hfin : hasPrefix (raw.drop (0x1E + (u32le raw 18 + 49) % 4294967296 + nh)) sig = true ∨
       ∃ n, n ≤ 4 ∧ C19Base.Chain raw sig (0x1E + (u32le raw 18 + 49) % 4294967296 + nh) n) :
     zipContains raw sig mso = some true :=
-  C19Base.zipContains_forward raw sig mso nh hlen hmso hso hidx hfin
+  C19Base.zipContains_forward raw sig mso nh hlen hpk hmso hso hidx hfin
 
 /-- **C19 (forward, from the layout)**: an archive is the concatenation of its local entries
     (`PK\x03\x04`, 26 fixed header bytes, name, extra field, stored data, optional data descriptor)
